@@ -20,8 +20,10 @@ from pathlib import Path
 VERIF = Path(__file__).resolve().parent.parent
 LEAN = VERIF / "lean"
 DRIVER = LEAN / ".lake" / "build" / "bin" / "lwdriver"
-EVIDENCE = VERIF / "evidence"
-REPLAYS = VERIF / "replays"
+# seeded-change runs (tools/run_seeded.py) redirect these so that they never overwrite the evidence of
+# the registered checks, which always write to /verif/evidence
+EVIDENCE = Path(os.environ.get("VERIF_EVIDENCE_DIR") or VERIF / "evidence")
+REPLAYS = Path(os.environ.get("VERIF_REPLAY_DIR") or VERIF / "replays")
 KNOWN = VERIF / "known_findings.json"
 ALLOWED_AXIOMS = {"propext", "Classical.choice", "Quot.sound"}
 FORBIDDEN = [
@@ -308,6 +310,85 @@ def proof_audit(prop: str, thorough: bool = False) -> dict:
     return res
 
 
+# --------------------------------------------------------------------------- implementation coverage
+
+
+class ImplCoverage:
+    """Measures which lines of the property's anchor files (properties.jsonl: anchors.files) the
+    correspondence run executed on the implementation.  Reported in the evidence so that a reader
+    can see how much of the modelled code the model was actually compared against; it decides
+    nothing."""
+
+    def __init__(self, prop: str, repo: str) -> None:
+        self.repo = os.path.realpath(repo)
+        self.files: list[str] = []
+        for line in (VERIF / "properties.jsonl").read_text().splitlines():
+            if line.strip():
+                rec = json.loads(line)
+                if rec.get("id") == prop:
+                    self.files = list(rec.get("anchors", {}).get("files", []))
+        self.cov = None
+
+    def start(self) -> None:
+        try:
+            import coverage
+        except ImportError:
+            return
+        inc = [os.path.join(self.repo, "lightworks", "*")]
+        self.cov = coverage.Coverage(data_file=None, include=inc, branch=False, config_file=False)
+        self.cov.start()
+
+    def stop(self) -> dict:
+        if self.cov is None:
+            return {"measured": False, "why": "coverage package not importable"}
+        self.cov.stop()
+        out: dict = {"measured": True, "files": {}}
+        tot_s = tot_m = 0
+        for f in self.files:
+            path = os.path.join(self.repo, f)
+            try:
+                _, stmts, _, missing, _ = self.cov.analysis2(path)
+            except Exception as e:  # noqa: BLE001
+                out["files"][f] = {"error": str(e)[:100]}
+                continue
+            tot_s += len(stmts)
+            tot_m += len(missing)
+            out["files"][f] = {"statements": len(stmts), "executed": len(stmts) - len(missing),
+                               "missing_lines": _ranges(missing)}
+        out["statements"] = tot_s
+        out["executed"] = tot_s - tot_m
+        # the rest of the package (not anchor files of this property): executed statements only
+        other: dict = {}
+        for path in sorted(self.cov.get_data().measured_files()):
+            rel = os.path.relpath(path, self.repo)
+            if rel in self.files:
+                continue
+            try:
+                _, stmts, _, missing, _ = self.cov.analysis2(path)
+            except Exception:  # noqa: BLE001
+                continue
+            if len(stmts) > len(missing):
+                other[rel] = {"statements": len(stmts), "executed": len(stmts) - len(missing),
+                              "missing_lines": _ranges(missing)}
+        out["other_files"] = other
+        out["note"] = ("module-level statements executed at import time before measurement starts are "
+                       "counted as missing unless re-executed; function bodies are what matters here")
+        return out
+
+
+def _ranges(xs: list[int]) -> str:
+    xs = sorted(xs)
+    out = []
+    i = 0
+    while i < len(xs):
+        j = i
+        while j + 1 < len(xs) and xs[j + 1] == xs[j] + 1:
+            j += 1
+        out.append(str(xs[i]) if i == j else f"{xs[i]}-{xs[j]}")
+        i = j + 1
+    return ",".join(out)
+
+
 # --------------------------------------------------------------------------- check context
 
 
@@ -379,7 +460,7 @@ class Ctx:
         if self._nrep >= self.max_reports:
             return
         self._nrep += 1
-        REPLAYS.mkdir(exist_ok=True)
+        REPLAYS.mkdir(parents=True, exist_ok=True)
         path = REPLAYS / f"{self.prop}-{self.seed}-{self._nrep}.json"
         path.write_text(
             json.dumps(
@@ -441,7 +522,7 @@ class Ctx:
             "wall_s": wall,
             "violations": len(self.violations),
         }
-        EVIDENCE.mkdir(exist_ok=True)
+        EVIDENCE.mkdir(parents=True, exist_ok=True)
         (EVIDENCE / f"{self.prop}.json").write_text(json.dumps(ev, indent=1, default=str) + "\n")
         if self._model:
             self._model.close()
